@@ -41,7 +41,7 @@ def run(repo, chk):
         cs = he.calls(name=name)
         ok = bool(cs)
         for c in cs:
-            hs = [h for h in he.enclosing_handlers(c) if h.type is not None and norm(h.type) == "ProtocolError"]
+            hs = [h for h in he.enclosing_handlers(c) if h.type is not None and "ProtocolError" in [norm(t) for t in (h.type.elts if isinstance(h.type, ast.Tuple) else [h.type])]]
             good = False
             for h in hs:
                 closes = [x for st in h.body for x in ast.walk(st) if isinstance(x, ast.Call) and call_name(x) == "self._quic.close"]
